@@ -161,8 +161,7 @@ def register(R, tier="quick"):
           ensures=["minv(self)", "wfpos(self)", "pos(self.child) >= old(pos(self.child))",
                    "forall(lambda s: implies(mem(self, s) and s >= old(pos(self.child)), s >= pos(self)))"],
           returns="opaque",
-          loops={(0 if excl else 1): LoopSpec(inv=["minv(self.child)", "child is self.child", "ids is self._ids",
-                                                   "pos(child) >= old(pos(self.child))",
+          loops={(0 if excl else 1): LoopSpec(inv=["minv(self.child)", "pos(child) >= old(pos(self.child))",
                                                    "forall(lambda s: implies(mem(self, s) and s >= old(pos(self.child)), "
                                                    "s >= pos(child)))"])},
           canaries=[Canary("filter-inverted", "child.id() in ids" if excl else "child.id() not in ids",
@@ -255,15 +254,14 @@ def register(R, tier="quick"):
     C(IV + "_find_next", props=PROPS_CUR + ["C07"], setup=mki(), requires=INVREQ, modifies=["self.child", "self._id"],
       ensures=["minv(self)", "wfpos(self)", "self._id >= old(self._id)",
                "forall(lambda s: implies(mem(self, s) and s >= old(self._id), s >= pos(self)))"],
-      loops={0: LoopSpec(inv=["self._id >= old(self._id)", "child is self.child", "missing is self.missing",
-                              "minv(child)", "pos(child) == old(pos(self.child))",
+      loops={0: LoopSpec(inv=["self._id >= old(self._id)", "minv(child)", "pos(child) == old(pos(self.child))",
                               "forall(lambda s: implies(s >= old(self._id) and s < self._id, missing.holds(s)))"]),
-             1: LoopSpec(inv=["self._id >= old(self._id)", "child is self.child", "missing is self.missing", "minv(child)",
+             1: LoopSpec(inv=["self._id >= old(self._id)", "minv(child)",
                               "pos(child) >= self._id or pos(child) == INF",
                               "forall(lambda s: implies(mem(child, s) and s >= self._id, s >= pos(child)))",
                               "forall(lambda s: implies(s >= old(self._id) and s < self._id, "
                               "missing.holds(s) or mem(child, s)))"]),
-             2: LoopSpec(inv=["self._id >= old(self._id)", "child is self.child", "missing is self.missing", "minv(child)",
+             2: LoopSpec(inv=["self._id >= old(self._id)", "minv(child)",
                               "forall(lambda s: implies(mem(child, s) and s >= self._id, s >= pos(child)))",
                               "pos(child) >= self._id or pos(child) == INF",
                               "pos(child) == INF or self._id >= self.limit or "
